@@ -1,9 +1,9 @@
 """C16 Unsync channels are FIFO, lossless and never strand a sender (engine Chan)."""
 from tools import chan, vlib
 
-KEY_TWO = "mpsc/wake_sender/stale-waker/two-outstanding-sends-in-one-task"
-KEY_SPUR = "mpsc/wake_sender/stale-waker/send-future-repolled-without-wake"
-KEY_CANCEL = "mpsc/wake_sender/lost-wake/sender-dropped-with-unfinished-send"
+# the three stale-waker findings (two outstanding sends / re-polled send / dropped woken sender)
+# were repaired by /repo commit 904d17adb85 and are no longer matched: a stranded sender is a
+# VIOLATION again
 KEY_CLOSE = "mpsc/close_this_sender/receiver-not-woken"
 
 
@@ -11,9 +11,8 @@ class C16(vlib.Spec):
     model_vo = ["theories/Chan/ModelMpscChk.vo"]  # definitions only: runs even if a proof breaks
     props_vo = "theories/Props/C16.vo"
     theorems = ["C16_fifo_exactly_once", "C16_history_faithful", "C16_closure_consistent",
-                "C16_no_strand", "C16_waiting_implies_runnable", "C16_no_strand_refuted",
-                "C16_no_strand_spurious_refuted", "C16_no_strand_cancel_refuted",
-                "C16_no_rx_strand", "C16_no_rx_strand_refuted", "C16_fix_no_strand"]
+                "C16_no_strand", "C16_waiting_implies_runnable",
+                "C16_no_rx_strand", "C16_no_rx_strand_refuted"]
     crate, group, binary = "h_chan", "dfir", "h_chan"
     imports = ("From Coq Require Import List NArith.\nImport ListNotations.\n"
                "From HV Require Import Chan.Base Chan.ModelMpsc Chan.ModelMpscChk.")
@@ -25,7 +24,7 @@ class C16(vlib.Spec):
                     "a woken task is eventually polled"]
     assumptions = ["model validated against dfir_rs::util::unsync::mpsc only on the generated label sequences",
                    "single-threaded (the type is !Send); no select!-style cancellation of an individual send "
-                   "future (only dropping the whole sender task)",
+                   "future (only dropping the whole sender task, with all its futures)",
                    "Sender::clone / try_send / the Sink impl (other than close_this_sender, which poll_close calls) are "
                    "not part of the label alphabet"]
     rule = ("label sequences (poll sender task / poll receiver / drop sender / close_this_sender / close / drop receiver) enabled "
@@ -52,14 +51,6 @@ class C16(vlib.Spec):
             return None
         if cl["rx_stranded"] and cl["closed_senders"] and not cl["stranded"]:
             return KEY_CLOSE
-        if not cl["stranded"]:
-            return None
-        if cl["two"]:
-            return KEY_TWO
-        if cl["spurious_polls"]:
-            return KEY_SPUR
-        if cl["cancelled"]:
-            return KEY_CANCEL
         return None
 
     def nontrivial(self, case, res):
